@@ -8,9 +8,17 @@
                 advance by assignment on a proper one; VecAccess stops at the end
 Not decided: shapes at depth >= 2 other than by composition of these level-one terms.
 """
+import re
+
 from .. import serde_shapes as ss
 from ..report import load_table
 from . import c18
+
+
+def _norm(term):
+    """Integer conversions are `From` widenings (lossy `as` casts are rejected by C04 R-WIDEN), so the integer type
+    a value passes through on its way into Number does not change the value: from:i64(x) = from:u64(x) = the integer x."""
+    return re.sub(r"from:[iu](8|16|32|64)\(", "from:int(", term)
 
 
 def run(ctx):
@@ -34,7 +42,7 @@ def run(ctx):
         g = got.get(k)
         if g is None:
             r.violation(k, "method-missing", "serializer method %s no longer exists" % k)
-        elif g == ent["term"]:
+        elif _norm(g) == _norm(ent["term"]):
             r.ok("%s = %s  [%s]" % (k.split(">::")[-1], g, ent["doc"]), serde.fn(k))
         else:
             r.violation("serde_lexpr::" + k, "shape",
